@@ -32,7 +32,8 @@ def space_descs(tier, max_degree=None, patterns=True):
                             pats.append(w)
                 for w in pats:
                     uni = len(set(w)) == 1
-                    for flag in ((False, True) if (uni and d == 3) else (False,)):
+                    # uniform=True is legal for every degree (setups.py always passes it); only degree 3 may take the fast path
+                    for flag in ((False, True) if uni else (False,)):
                         out.append({'degree': d, 'periodic': per, 'widths': list(w), 'flag': flag, 'scale': 1.0, 'offset': 0.0})
                 if patterns and nc >= 3:
                     # almost uniform (relative grading 1e-6 per cell) and a very small length unit: nothing may decide
